@@ -29,6 +29,9 @@ def decl_specs(tier):
     for c in ('m0', 'mab', 'rx', 'sm', 'om'):
         for sbl in (0, 2, 3):
             specs.append({'names': [c, 'i1'], 'wrapper': 'a', 'opts': {'search_buffer_length': sbl}})
+    for c in ('r1', 'sr', 'rs', 'rbag'):
+        specs.append({'names': [c, 'i2'], 'wrapper': 'b', 'shared': {}})
+        specs.append({'names': ['i2', c], 'wrapper': 'c', 'shared': {'endianness': 'little'}})
     for c in ('i1', 'dn', 'sn', 'r1', 'b35', 'p_at3', 'rs', 'o1'):
         specs.append({'names': [c, 'i3', c], 'wrapper': 'a', 'opts': {'generate_for_pack': False, 'generate_for_unpack': False}})
     return specs
